@@ -60,10 +60,14 @@ FIELDS = {
     13: ("u128", 16, 16, "any"),
     14: ("[u16; 2]", 4, 2, "any"),
 }
+# the packed align-1 wrappers with hand-written marker impls (data_types/packed_value.rs 25-37)
+FIELDS[15] = ("star_frame::data_types::PackedValueChecked<core::num::NonZeroU8>", 1, 1, "nonzero")
+FIELDS[16] = ("star_frame::data_types::PackedValueChecked<bool>", 1, 1, "bool")
+FIELDS[17] = ("star_frame::data_types::PackedValueChecked<u16>", 2, 1, "any")
 for _n in range(0, 13):
     FIELDS[20 + _n] = ("[u8; %d]" % _n, _n, 1, "any")
 T_CODE = 99
-ALIGN1_FIELDS = [0, 1, 2, 3, 4, 5, 6, 7, 8, 9, 20, 21, 23, 24, 28]
+ALIGN1_FIELDS = [0, 1, 2, 3, 4, 5, 6, 7, 8, 9, 15, 16, 17, 20, 21, 23, 24, 28]
 WIDE_FIELDS = [10, 11, 12, 13, 14]
 
 #   code: (rust type, may be zero sized)
@@ -740,7 +744,15 @@ def gen_cases(rng, tier):
                     add(enc(0, form, 0, [(2, 0)], [fl]), "sys")
             add(enc(0, 1, w + 1, [(2, 0)], [[z, T_CODE]]), "sys")
             add(enc(0, 1, w + 1, [(2, 0)], [[T_CODE, z]]), "sys")
-    total = 532 if tier == "quick" else 5000
+    # the packed wrappers with hand-written markers, alone / first / last in every zero-copy flavour and in a sized part
+    for fcode in (15, 16, 17, 8):
+        for mcode in (1, 2, 3, 4):
+            for fl in ([fcode], [0, fcode], [fcode, 0]):
+                add(enc(mcode, 0, 0, [], [fl]), "sys")
+        add(enc(5, 0, 0, [], [[fcode]], [0]), "sys")
+        add(enc(5, 0, 0, [], [[0, fcode]], [0]), "sys")
+        add(enc(0, 0, 0, [], [[fcode]]), "sys")
+    total = 600 if tier == "quick" else 5000
     guard = 0
     while len(out) < total and guard < total * 20:
         guard += 1
@@ -833,6 +845,12 @@ def predicate(ints, obs):
         if bool(got) != exp:
             return "bit pattern %s %s by checked::try_from_bytes but %s for the declared fields" % (
                 p, "accepted" if got else "rejected", "invalid" if not exp else "valid")
+    # zero_copy and the generated sized part also certify Zeroable: the all-zero bytes have to be a valid value
+    if fields is not None:
+        for x in fields:
+            sz, kind = FIELDS[x][1], FIELDS[x][3]
+            if sz > 0 and not _valid_bytes(kind, [0] * sz):
+                return "%s certifies Zeroable for a type whose field %s does not accept the all-zero bytes" % (MACROS[m], FIELDS[x][0])
     return None
 
 
